@@ -656,7 +656,7 @@ impl Prop for C15Pool {
     fn run(s: &Scn, st: &mut RunStats) -> Result<(), Violation> {
         let kind = s.cfg.kind;
         let Some(fspec) = &s.cfg.filter else { return Ok(()) };
-        let f = crate::sut::filter_tcp(fspec);
+        let f = crate::sut::filter_canonical(fspec);
         let admit: Vec<Option<bool>> = s.trace.iter().map(|p| super::c15::view(&p.frame).map(|(a, b, sp, dp)| f.should_process(&a, &b, sp, dp))).collect();
         let sub: Vec<Timed> = s.trace.iter().zip(admit.iter()).filter(|(_, a)| a.unwrap_or(true)).map(|(p, _)| p.clone()).collect();
         let mut unfiltered = s.cfg.clone();
